@@ -1,9 +1,18 @@
 //! Throw-away probes (`jv scratch`), not part of any check.
 pub fn run() {
-    use jiff::{civil::date, Span, Unit};
-    for d in [date(-9999, 1, 30), date(-9999, 1, 1), date(2024, 1, 1), date(9999, 12, 31), date(-9998, 1, 1)] {
-        for u in [Unit::Year, Unit::Month, Unit::Week, Unit::Day, Unit::Hour] {
-            println!("{d} {u:?} zero => {:?} ; 1day => {:?}; -1day => {:?}", Span::new().total((u, d)), Span::new().days(1).total((u, d)), Span::new().days(-1).total((u, d)));
-        }
+    use jiff::{RoundMode, Span, SpanRound, Timestamp, Unit};
+    let z = crate::zones::by_label("syn:fat/Verif/Q45").unwrap();
+    let r = Timestamp::from_nanosecond(1286656200000000000).unwrap().to_zoned(z.tz.clone());
+    let a = Span::new().months(1).weeks(21).days(1).nanoseconds(6);
+    let end = r.checked_add(a).unwrap();
+    println!("r={r} end={end}");
+    println!("until(month) = {:?}", r.until((Unit::Month, &end)));
+    println!("r+5mo={}", r.checked_add(Span::new().months(5)).unwrap());
+    println!("r+5mo4w={}", r.checked_add(Span::new().months(5).weeks(4)).unwrap());
+    println!("r+5mo5w={}", r.checked_add(Span::new().months(5).weeks(5)).unwrap());
+    for m in [RoundMode::Ceil, RoundMode::Trunc, RoundMode::HalfExpand] {
+        println!("round week {m:?} = {:?}", a.round(SpanRound::new().smallest(Unit::Week).mode(m).relative(&r)));
+        println!("round day {m:?} = {:?}", a.round(SpanRound::new().smallest(Unit::Day).mode(m).relative(&r)));
     }
+    println!("{:?}", z.rz.footer_text);
 }
